@@ -62,6 +62,14 @@ package quadtree
 //@ func removeNode(n)
 //@   requires n != nil
 
+// a pointer is stored only when its point lies inside the tree's bound: every successful return of Add
+// (returns 3-5: empty tree, empty root, general insertion) is taken only with the point in the bound
+//@ func (*Quadtree).Add(q, p)
+//@   floats ieee
+//@   return 3: contains(q.bound, point)
+//@   return 4: contains(q.bound, point)
+//@   return 5: contains(q.bound, point)
+
 // removal needs the pointer to remove to be non-nil (its Point() is taken)
 //@ func (*Quadtree).Remove(q, p, eq)
 //@   purefuncs
@@ -113,20 +121,20 @@ package quadtree
 // call (all visitors, the heap, planar.DistanceSquared) targets a node, its Children array or the
 // Quadtree header. Filters are pure (`purefuncs`), Pointer.Point is pure (interface contract).
 //@ func (*Quadtree).Find(q, p)
-//@   nowrite P:quadtree.node, P:quadtree.Quadtree
+//@   nowrite P:quadtree.node, P:quadtree.Quadtree, globals
 //@ func (*Quadtree).Matching(q, p, f)
 //@   purefuncs
-//@   nowrite P:quadtree.node, P:quadtree.Quadtree
+//@   nowrite P:quadtree.node, P:quadtree.Quadtree, globals
 //@ func (*Quadtree).KNearest(q, buf, p, k, maxDistance)
 //@   requires k <= 1073741824
-//@   nowrite P:quadtree.node, P:quadtree.Quadtree
+//@   nowrite P:quadtree.node, P:quadtree.Quadtree, globals
 //@ func (*Quadtree).KNearestMatching(q, buf, p, k, f, maxDistance)
 //@   purefuncs
 //@   requires k <= 1073741824
-//@   nowrite P:quadtree.node, P:quadtree.Quadtree
+//@   nowrite P:quadtree.node, P:quadtree.Quadtree, globals
 //@   loop 1: invariant i == len(v.maxHeap) - 1 && i < len(buf) && isHeap(v.maxHeap) && noNaNs(v.maxHeap) && v != nil
 //@ func (*Quadtree).InBound(q, buf, b)
-//@   nowrite P:quadtree.node, P:quadtree.Quadtree
+//@   nowrite P:quadtree.node, P:quadtree.Quadtree, globals
 //@ func (*Quadtree).InBoundMatching(q, buf, b, f)
 //@   purefuncs
-//@   nowrite P:quadtree.node, P:quadtree.Quadtree
+//@   nowrite P:quadtree.node, P:quadtree.Quadtree, globals
